@@ -531,5 +531,81 @@ theorem chain_bcb_fail (cfg : Cfg) (rx : RxBundle) (now r : Nat) (c0 : Ctr)
   simp [runChain, hs1, hs2]
 
 
+/-! ### forwarding-queue accounting -/
+
+def isQueued : Effect → Bool | .queued _ => true | _ => false
+@[simp] theorem isQueued_queued (i : Ident) : isQueued (.queued i) = true := rfl
+@[simp] theorem isQueued_delivered (i : Ident) : isQueued (.delivered i) = false := rfl
+
+theorem finishEff_queued (c : Ctr) : (finishEff c).filter isQueued = [] := by
+  unfold finishEff; cases reportFor c <;> simp [isQueued]
+
+theorem dispose_fwdQ_len (st : St) (c : Ctr) :
+    (dispose st c).1.fwdQ.length = st.fwdQ.length + ((dispose st c).2.filter isQueued).length := by
+  rw [dispose_eff]
+  unfold dispose
+  cases h1 : hasAct c.actions .delete <;> cases h2 : hasAct c.actions .deliver <;>
+    cases h3 : hasAct c.actions .forward <;>
+    simp [finish_fwdQ, finishEff_queued, List.filter_append, List.filter_cons]
+
+theorem clRecv_fwdQ_len (cfg : Cfg) (st : St) (now : Nat) (rx : RxBundle) :
+    (clRecv cfg st now rx).1.fwdQ.length
+      = st.fwdQ.length + ((clRecv cfg st now rx).2.filter isQueued).length := by
+  unfold clRecv
+  split
+  · simp [isQueued]
+  · rcases recv_cases cfg st now rx with h | ⟨_, c, _, _, h⟩
+    · rw [h]; simp
+    · rw [h]; exact dispose_fwdQ_len _ c
+
+theorem plain_not_queued (l : List Effect) (h : ∀ e ∈ l, plain e) : l.filter isQueued = [] := by
+  rw [List.filter_eq_nil_iff]
+  intro e he hq
+  cases e <;> simp [isQueued] at hq
+  exact (h _ he).2 _ rfl
+
+theorem sendReport_fwdQ (cfg : Cfg) (st : St) (now : Nat) (sp : SendParams) :
+    (sendReport cfg st now sp).1.fwdQ = st.fwdQ := by
+  unfold sendReport
+  split
+  · rfl
+  · simp only []
+    split <;> simp [sendBundle_fwdQ]
+
+/-- The receive chain on a fragment whose reassembly step does not raise ends in a container
+    without 'deliver': held for reassembly (actions cleared) or not up for delivery at all. -/
+theorem chain_fragment_no_deliver (cfg : Cfg) (rx : RxBundle) (now : Nat) (c0 : Ctr)
+    (hp0 : c0.primary = rx.primary) (hf : isFragment rx.primary.flags = true)
+    (hr : rx.reasmRaises = false) :
+    ∃ c, runChain cfg rx now [.adminRoute, .static, .reasm, .bcb, .bib, .adminHandle] c0 = c
+      ∧ hasAct c.actions .deliver = false := by
+  have hs1 : (runStep cfg rx now .adminRoute c0).2 = false := by
+    simp only [runStep]; split <;> rfl
+  have hp1 : (runStep cfg rx now .adminRoute c0).1.primary = rx.primary := by
+    rw [← hp0]; simp only [runStep]; split <;> simp [Ctr.record]
+  have hs2 : ∀ c1, (runStep cfg rx now .static c1).2 = false := by
+    intro c1; simp only [runStep]; (repeat' split) <;> rfl
+  have hp2 : ∀ c1, (runStep cfg rx now .static c1).1.primary = c1.primary := by
+    intro c1; simp only [runStep]; (repeat' split) <;> simp [Ctr.record]
+  have key : ∀ c2 : Ctr, c2.primary = rx.primary →
+      ∃ c, runChain cfg rx now [.reasm, .bcb, .bib, .adminHandle] c2 = c ∧ hasAct c.actions .deliver = false := by
+    intro c2 h2
+    cases hdl : hasAct c2.actions .deliver
+    · have h3 : runStep cfg rx now .reasm c2 = (c2, false) := by simp [runStep, hdl]
+      have h4 : runStep cfg rx now .bcb c2 = (c2, false) := by simp [runStep, secStep, hdl]
+      have h5 : runStep cfg rx now .bib c2 = (c2, false) := by simp [runStep, secStep, hdl]
+      have h6 : runStep cfg rx now .adminHandle c2 = (c2, false) := by simp [runStep, hdl]
+      exact ⟨c2, by simp [runChain, h3, h4, h5, h6], hdl⟩
+    · have h3 : runStep cfg rx now .reasm c2 = ({ c2 with actions := [] }, true) := by
+        simp [runStep, hdl, h2, hf, hr]
+      refine ⟨{ c2 with actions := [] }, ?_, by simp [hasAct]⟩
+      simp only [runChain, h3, if_true]
+  obtain ⟨c, hc, hd⟩ := key (runStep cfg rx now .static (runStep cfg rx now .adminRoute c0).1).1
+    ((hp2 _).trans hp1)
+  refine ⟨c, ?_, hd⟩
+  rw [← hc]
+  simp [runChain, hs1, hs2]
+
+
 end Agent
 end DtnVerif
